@@ -281,6 +281,16 @@ func cmdRun(args []string) {
 			rec.Sample = c.Trace
 			emitJSON(rec)
 		}
+		if simrt.Tainted {
+			// the library was unwound by a budget panic in this process: its package-level state (locks,
+			// caches) is no longer what a run may assume. Report what ran; the parent starts a fresh
+			// process for the runs after this one.
+			if sum.Extra == nil {
+				sum.Extra = map[string]any{}
+			}
+			sum.Extra["restart_after"] = float64(k)
+			break
+		}
 	}
 	for i, h := range simrt.SiteHits {
 		if h {
